@@ -701,3 +701,122 @@ def rule_stage_layering(ctx, mode=None):
         r.violation("StageSemanticsSolver", "reaches:%s<-%s" % (strip_generics(t.id), strip_generics(cb.id).split("::{closure")[0]), "%s, reachable from the stage solver's %smethods, calls %s: an admissibility-based computation decides a stage query" % (cb.id, which, t.id), s.loc())
     if not n_bad:
         r.ok("StageSemanticsSolver", "%d bodies reachable from %d methods, no admissibility-based computation besides the listed start value" % (len(reach), len(roots)))
+
+
+# ------------------------------------------------------------------------------------------
+# every listed argument is looked at (found by seeded changes C07/C and C07/D)
+
+
+def _list_loops(prog, b, lp):
+    """(head, blocks, next-site) of the natural loops of b driven by `Iterator::next` over the whole query list"""
+    out = []
+    loops = dict(b.loops())
+    for s in b.calls():
+        if callee_decl(callee_of(s)) != "core::iter::traits::iterator::Iterator::next":
+            continue
+        if tags.list_kind(prog, b, s.node["args"][0], lp) != "FULL":
+            continue
+        hs = [h for h in b.in_loop(s.bb)]
+        if hs:
+            out.append((hs[-1], loops[hs[-1]], s))
+    return out
+
+
+def rule_every_listed_argument(ctx, kind=None):
+    prog = ctx.prog
+    scope = query_scope(prog, kind)
+    r = ctx.rule(
+        "every-listed-argument-considered",
+        "(a) a loop over the whole query list that accumulates a result (pushes / appends to a collection used after the loop) is left only when "
+        "the list is exhausted - no `break` that continues with a partial accumulation; (b) inside a loop over the connected components, the "
+        "selection of the listed arguments belonging to the current component is not switched off by a flag set in an earlier iteration: a listed "
+        "argument of a later component (or listed after a repeated one) is still part of the query",
+    )
+    n_a = n_b = 0
+    for b in sorted(prog.lib_bodies(), key=lambda x: x.id):
+        fn = prog.enclosing_fn(b)
+        if not (fn.path.startswith("solvers::") or "<solvers::" in fn.path.split(" as ")[0] or fn.path.startswith("utils::connected_components_computer")):
+            continue
+        if scope is not None and b.id not in scope:
+            continue
+        lp = list_params_of(fn) if b is fn else set()
+        if not lp:
+            continue
+        # (a) accumulating loops over the list
+        for head, blocks, nxt in _list_loops(prog, b, lp):
+            acc = [s for s in b.calls() if s.bb in blocks and callee_decl(callee_of(s)) in ("alloc::vec::Vec::push", "alloc::vec::Vec::append", "core::iter::traits::collect::Extend::extend", "alloc::vec::Vec::extend_from_slice")]
+            acc = [s for s in acc if not any(d.bb in blocks for l in data_deps(b, s.node["args"][0], through_calls=False)[0] for d in b.defs.get(l, []) if d.si is None and callee_decl(callee_of(d)) in ("alloc::vec::Vec::new", "alloc::vec::Vec::with_capacity"))]
+            if not acc:
+                continue
+            n_a += 1
+            # the normal exit: the None arm of the match on next()
+            post = None
+            for sw in switch_sites(b):
+                subj = switch_subject(b, sw)
+                if subj and subj[1] and subj[0]["l"] == nxt.node["dst"]["l"] and not subj[0]["p"]:
+                    for v, tb in sw.node["targets"]:
+                        if v == "0":
+                            post = (sw.bb, tb)
+            anchor = "%s|list-loop@bb%d" % (b.id, head)
+            if post is None:
+                r.ok(anchor, "loop exit not recognised: NOT decided", nxt.loc())
+                continue
+            breaks = []
+            cont = {post[1]} | b.blocks_reachable_from(post[1])
+            cont_calls = {x for x in cont if b.blocks[x]["term"]["k"] == "call"}
+            for x in blocks:
+                for sc in b.succ[x]:
+                    if sc in blocks or (x, sc) == post:
+                        continue
+                    # a `break`: the early exit joins the code that runs after the loop (a `return` only reaches drops)
+                    if ({sc} | b.blocks_reachable_from(sc)) & cont_calls:
+                        breaks.append(x)
+            r.check(not breaks, anchor, "break-with-partial-accumulation", "the accumulating loop over the listed arguments ends only when the list is exhausted", "the loop over the listed arguments can be left early (from block(s) %s) and the function goes on with what was accumulated so far: the remaining listed arguments are ignored" % sorted(breaks), nxt.loc())
+        # (b) per-component selection of the listed arguments
+        comp_loops = []
+        loops = dict(b.loops())
+        for s in b.calls():
+            if callee_decl(callee_of(s)) == "core::iter::traits::iterator::Iterator::next" and "ConnectedComponentsIterator" in b.local_ty(_root_local(b, s.node["args"][0])):
+                for h in b.in_loop(s.bb):
+                    comp_loops.append((h, loops[h]))
+            if callee_matches(callee_of(s), r"ConnectedComponentsComputer::next_connected_component$"):
+                for h in b.in_loop(s.bb):
+                    comp_loops.append((h, loops[h]))
+        for head, blocks in comp_loops:
+            for s in b.calls():
+                if s.bb not in blocks:
+                    continue
+                d = callee_decl(callee_of(s))
+                if d not in tags.FILTERING + tags.MAPPING:
+                    continue
+                if tags.list_kind(prog, b, s.node["args"][0], lp) != "FULL":
+                    continue
+                n_b += 1
+                bad = None
+                for c in conditions(b, s.bb):
+                    if c.is_discr or c.place["p"] or b.local_ty(c.place["l"]) != "bool":
+                        continue
+                    from ..flow import truth_implies, resolve_copy
+
+                    root = resolve_copy(b, c.place["l"])
+                    if b.local_name(root) is None:
+                        continue
+                    # a flag written inside the loop
+                    if any(dd.bb in blocks for dd in b.defs.get(root, [])):
+                        bad = b.local_name(root)
+                r.check(bad is None, "%s|selection@bb%d" % (b.id, s.bb), "selection-switched-off:%s" % bad, "the listed arguments of the component are selected in every iteration", "the selection of the listed arguments of the current component depends on the flag `%s` written in an earlier iteration of the component loop: listed arguments of later components are dropped from the query" % bad, s.loc())
+    r.floor(n_a + n_b, 1, "accumulating list loops and per-component selections")
+
+
+def _root_local(b, op):
+    p = op_place(op)
+    if p is None:
+        return 0
+    l = p["l"]
+    for _ in range(6):
+        ds = b.defs.get(l, [])
+        if len(ds) == 1 and ds[0].si is not None and ds[0].node["k"] == "assign" and ds[0].node["rv"]["k"] in ("ref", "rawptr"):
+            l = ds[0].node["rv"]["place"]["l"]
+            continue
+        break
+    return l
